@@ -144,13 +144,20 @@ def build(verbose=False):
         model_vos += [os.path.join(gen_dir, f) for f in os.listdir(gen_dir) if f.endswith('.vo')]
     newest = max([os.path.getmtime(f) for f in model_vos] + [os.path.getmtime(os.path.join(OCAML, 'driver.ml'))] or [0])
     if rc == 0 and (not os.path.exists(DRIVER) or os.path.getmtime(DRIVER) < newest):
-        rc1, out1 = sh(['timeout', '600', 'coqc', '-Q', COQ, 'WD', '-o', os.path.join(BUILD, 'Extraction.vo'),
-                        os.path.join(COQ, 'Extract', 'Extraction.v')], cwd=BUILD, timeout=700)
+        for f in ('driver', 'wdmodel.ml', 'wdmodel.mli'):
+            try:
+                os.remove(os.path.join(BUILD, f))
+            except OSError:
+                pass
+        rc1, out1 = sh(['timeout', '600', 'coqc', '-Q', COQ, 'WD', '-o', os.path.join(BUILD, 'ExtractModel.vo'),
+                        os.path.join(COQ, 'Extract', 'ExtractModel.v')], cwd=BUILD, timeout=700)
         log.append(out1)
-        shutil.copy(os.path.join(OCAML, 'driver.ml'), os.path.join(BUILD, 'driver.ml'))
-        rc2, out2 = sh(['ocamlfind', 'ocamlopt', '-O2', '-w', '-a', 'wdmodel.mli', 'wdmodel.ml',
-                        'driver.ml', '-o', 'driver'], cwd=BUILD, timeout=600)
-        log.append(out2)
+        rc2 = 1
+        if rc1 == 0:
+            shutil.copy(os.path.join(OCAML, 'driver.ml'), os.path.join(BUILD, 'driver.ml'))
+            rc2, out2 = sh(['ocamlfind', 'ocamlopt', '-O2', '-w', '-a', 'wdmodel.mli', 'wdmodel.ml',
+                            'driver.ml', '-o', 'driver'], cwd=BUILD, timeout=600)
+            log.append(out2)
         drv_ok = rc1 == 0 and rc2 == 0 and os.path.exists(DRIVER)
     else:
         drv_ok = os.path.exists(DRIVER)
@@ -201,7 +208,7 @@ def model_eval(entry, cases, shards=None):
     chunks = [lines[i::shards] for i in range(shards)]
     procs = []
     for ch in chunks:
-        p = subprocess.Popen([DRIVER, entry], stdin=subprocess.PIPE, stdout=subprocess.PIPE,
+        p = subprocess.Popen([DRIVER, entry, os.path.join(COQ, 'Gen', 'shipped_db.sx')], stdin=subprocess.PIPE, stdout=subprocess.PIPE,
                              stderr=subprocess.PIPE, text=True,
                              preexec_fn=lambda: __import__('resource').setrlimit(
                                  __import__('resource').RLIMIT_STACK,
@@ -267,11 +274,11 @@ def kernel_replay(pid, entry, cases, model_results, limit):
     name = 'Replay_%s_%s' % (pid, entry)
     path = os.path.join(d, name + '.v')
     with open(path, 'w') as f:
-        f.write('From WD Require Import Base Entry.\nOpen Scope N_scope.\n')
+        f.write('From WD Require Import Base Entry EntryShipped.\nOpen Scope N_scope.\n')
         f.write('Definition cases : list (sx * sx) := [\n')
         f.write(';\n'.join('(%s, %s)' % (coq_sx(cases[i]), coq_sx(model_results[i])) for i in idx))
         f.write('].\n')
-        f.write('Definition ok := forallb (fun p => sx_eqb (run_entry (s2l "%s") (fst p)) (snd p)) cases.\n' % entry)
+        f.write('Definition ok := forallb (fun p => sx_eqb (run_shipped (s2l "%s") (fst p)) (snd p)) cases.\n' % entry)
         f.write('Example replay_ok : ok = true.\nProof. vm_compute. reflexivity. Qed.\n')
     rc, out = sh(['timeout', '900', 'coqc', '-Q', COQ, 'WD', path], cwd=d, timeout=1000,
                  env=dict(os.environ))
